@@ -12,7 +12,7 @@ LEVEL = "exploration"
 LEVEL_TEXT = ("Complete enumeration of tables = every subset of size 1-4 of the entry texts {a,b,ab,ba,aa,abc} x every assignment of 4 "
               "code styles (1-byte, 2-byte, 2-byte sharing its first byte with a 1-byte code, 2-byte starting with 00), plus duplicate-code tables, tables with a bare '[' entry and tables whose entry texts begin/end with blanks, x every string of length "
               "<=4 (thorough <=5) over {a,b,c,z,[0x41],[0x7F],[}, each pair through the real Table.to_bytes/to_text and compared with an "
-              "independent longest-match tokenizer; a covering subset again through `.table` + `.text` programs in 7 scoping contexts "
+              "independent longest-match tokenizer; a covering subset again through `.table` + `.text` programs in 9 scoping contexts (incl. two adjacent directives and a table loaded inside a loop body) "
               "with a label after the text. Five unit tests use one table and four strings.")
 LEVEL_NOTE = ("Trusted: mc/ref/tbl.py. Round trip is claimed only for unique, prefix-free code sets and escape-free strings (the statement "
               "does not define decoding of raw bytes). The `:ignore` table syntax is outside the property.")
@@ -82,10 +82,10 @@ def strings(maxlen, bracket=True, blank=False):
 
 def bound(tier):
     return (f"{len(tables())} tables x all strings of length <={5 if tier == 'thorough' else 4} over 7 symbols; "
-            "every 61st table x strings <=3 x 7 scoping contexts as programs")
+            "every 61st table x strings <=3 x 9 scoping contexts as programs")
 
 
-CONTEXTS = ["top", "inherit", "own", "macro", "scope", "reload", "late-own"]
+CONTEXTS = ["top", "inherit", "own", "macro", "scope", "reload", "late-own", "adjacent", "for-own"]
 
 
 def cases(tier, seed):
@@ -179,6 +179,13 @@ def program(ctx, s):
     if ctx == "macro":
         return (f"*=0x{ORG:06x}\n.macro mt() {{\n{txt}}}\n.table 't.tbl'\nmt()\n{{\n.table 'u.tbl'\nmt()\n}}\nmt()\nafter:\n.dw 0xEEDD\n",
                 ["t", "u", "t"])
+    if ctx == "adjacent":
+        # two directives in a row are two strings: no entry can match across the boundary
+        k = 1 if not s.startswith("[") else (s.index("]") + 1 if "]" in s else 1)
+        return f"*=0x{ORG:06x}\n.table 't.tbl'\n.text '{s[:k]}'\n.text '{s[k:]}'\nafter:\n.dw 0xEEDD\n", ["t:" + s[:k], "t:" + s[k:]]
+    if ctx == "for-own":
+        # a table loaded inside a loop body belongs to the iteration: text after the loop uses the outer table again
+        return f"*=0x{ORG:06x}\n.table 'u.tbl'\n.for qi := 0, 2 {{\n{txt}.table 't.tbl'\n{txt}}}\n{txt}after:\n.dw 0xEEDD\n", ["u", "t", "u", "t", "u"]
     if ctx == "reload":
         # a table loaded later in the same scope must not change text that precedes it
         return f"*=0x{ORG:06x}\n.table 't.tbl'\n{txt}.table 'u.tbl'\n{txt}after:\n.dw 0xEEDD\n", ["t", "u"]
@@ -221,7 +228,7 @@ def run_prog(ti, ctx):
         src, uses = program(ctx, s)
         out = impl.assemble(src, rom="low_rom")
         evals += 1
-        exp = b"".join(tbl.encode(entries if u == "t" else UTBL, s)[0] for u in uses)
+        exp = b"".join(tbl.encode(entries if u[0] == "t" else UTBL, u[2:] if ":" in u else s)[0] for u in uses)
         if overlapping(entries) or "[" in s or "z" in s:
             nt += 1
         if not out.accepted:
